@@ -39,7 +39,7 @@ struct RowsHarness : Harness {
     long n = r.range(10, thorough ? 220 : 90);
     static const char* row_ops[] = { "set", "set", "insert", "insert", "insert0", "insert_hint", "insert_hint", "find", "find_hint", "lower_bound", "lower_bound_hint",
       "reset", "reset", "reset_iter", "reset_range", "reset_after", "erase_iter", "swap", "swap_iter", "fast_swap", "delete_shift", "add_zeroes", "resize", "shrink",
-      "lin_comb", "lin_comb", "lin_comb_range", "combine_first", "combine_second", "combine", "normalize", "copy_cap", "assign", "m_swap", "from_dense", "to_dense",
+      "lin_comb", "lin_comb", "lin_comb_range", "combine_first", "combine_second", "combine", "normalize", "copy_cap", "assign", "assign_cross", "insert_alias", "insert_alias", "m_swap", "from_dense", "to_dense",
       "dump_load", "burst", "burst", "clear", "iterate", "iterate" };
     static const char* expr_ops[] = { "e_setcoef", "e_setcoef", "e_setinh", "e_add", "e_sub", "e_mul", "e_addmul", "e_submul", "e_addvar", "e_neg", "e_lincomb",
       "e_swapdims", "e_shift", "e_remove", "e_permute", "e_setdim", "e_equal", "e_queries", "e_copyrep", "e_normalize", "e_dump_load", "e_iterate", "e_mixed_add", "e_mixed_lincomb" };
@@ -154,6 +154,13 @@ struct RowsHarness : Harness {
         if (g > 1) for (auto& e : x.m) e /= g; }
       else if (k == "copy_cap") { Sparse_Row c(x.s, (dimension_type) (n + (size_t) op.mod(6, 9))); Dense_Row dc(x.d, (dimension_type) (n + (size_t) op.mod(6, 9))); y.s.m_swap(c); y.d.m_swap(dc); y.m = x.m; }
       else if (k == "assign") { y.s = x.s; y.d = x.d; y.m = x.m; }
+      // cross-representation assignment onto USED destinations (stale coefficients, recycled storage)
+      else if (k == "assign_cross") { if (&x == &y) continue; y.d = x.s; y.s = x.d; y.m = x.m; ctx.stat("rows.cross_assign_onto_used"); }
+      // the value to insert is a reference to a coefficient stored in the same row
+      else if (k == "insert_alias") { const Sparse_Row& cs = x.s; const Coefficient& ref = cs.get(i); mpz_class val = x.m[i];
+        Sparse_Row::iterator it = op.mod(6, 2) ? x.s.insert(hint(), j, ref) : x.s.insert(j, ref);
+        Coefficient dv = x.d[i]; x.d.insert(j, dv); x.m[j] = val; ctx.stat("rows.self_referencing_insert");
+        if (it == x.s.end() || it.index() != j || mpz_class(*it) != val) ctx.violation("C16", "returned-iterator", kl, "insert(j, row.get(i)) did not return an iterator to j holding the value of i"); }
       else if (k == "m_swap") { x.s.m_swap(y.s); x.d.m_swap(y.d); x.m.swap(y.m); }
       else if (k == "from_dense") { Sparse_Row c(x.d); x.s.m_swap(c); if (op.mod(6, 2)) { x.s = x.d; } }
       else if (k == "to_dense") { Dense_Row c(x.s); x.d.m_swap(c); if (op.mod(6, 2)) { x.d = x.s; } }
@@ -216,6 +223,17 @@ struct RowsHarness : Harness {
       bool distinct = &x != &y;
       if (k == "e_setcoef") { if (vi.space_dimension() > dim) { x.d.set_space_dimension(vi.space_dimension()); x.s.set_space_dimension(vi.space_dimension()); } x.d.set_coefficient(vi, v); x.s.set_coefficient(vi, v); }
       else if (k == "e_setinh") { x.d.set_inhomogeneous_term(v); x.s.set_inhomogeneous_term(v); }
+      else if (!distinct && (k == "e_add" || k == "e_sub" || k == "e_addmul" || k == "e_submul")) {
+        // aliased operands: e op= e must equal e op= copy(e), in both representations
+        Linear_Expression cd(x.d), cs(x.s), rd(x.d), rs(x.s);
+        if (k == "e_add") { rd += cd; rs += cs; x.d += x.d; x.s += x.s; }
+        else if (k == "e_sub") { rd -= cd; rs -= cs; x.d -= x.d; x.s -= x.s; }
+        else if (k == "e_addmul") { PPL::add_mul_assign(rd, v, cd); PPL::add_mul_assign(rs, v, cs); PPL::add_mul_assign(x.d, v, x.d); PPL::add_mul_assign(x.s, v, x.s); }
+        else { PPL::sub_mul_assign(rd, v, cd); PPL::sub_mul_assign(rs, v, cs); PPL::sub_mul_assign(x.d, v, x.d); PPL::sub_mul_assign(x.s, v, x.s); }
+        ctx.stat("rows.aliased_expression_ops");
+        if (!x.d.is_equal_to(rd)) ctx.violation("C16", "expr-alias", "Expr|" + k + "|dense", "e " + k + " e differs from e " + k + " copy(e) (DENSE)");
+        if (!x.s.is_equal_to(rs)) ctx.violation("C16", "expr-alias", "Expr|" + k + "|sparse", "e " + k + " e differs from e " + k + " copy(e) (SPARSE)");
+      }
       else if (k == "e_add") { if (!distinct) continue; x.d += y.d; x.s += y.s; }
       else if (k == "e_sub") { if (!distinct) continue; x.d -= y.d; x.s -= y.s; }
       else if (k == "e_mul") { x.d *= v; x.s *= v; }
